@@ -204,6 +204,13 @@ def run(chk, ctx):
                'accepts %r, packs %r with range %r, refuses %r with %s' %
                (guard, seg.fmt, fmt_set(seg), rej, sorted(rtypes)),
                site=site)
+    # integers inside arrays reach the ladder one by one: every item of a
+    # list is encoded by encode_table_value(item) (a per-call memo keyed by
+    # the item would hand 1 the bytes of True: they are equal and hash alike)
+    chk.ob('C11.P', 'array items reach the ladder',
+           tables.array_items_encoded(ctx),
+           'field_array appends encode_table_value(item) for each item',
+           site='pamqp/encode.py::field_array')
     chk.floor('C11.E', 5 + 10, 'encoder facts')
     chk.floor('C11.P', 6 + 4 + 2, 'partition facts')
 
